@@ -1289,6 +1289,11 @@ impl Out {
             } else if !s.results.is_empty() {
                 return Err(Violation::new("qos2-wrong-receipt", self.rwit("send_exactly_once early"), format!("sender {j} (id {id}) completed {:?} before its PUBREC was written: {}", s.results, self.detail())));
             }
+            // a release refused locally by the encoder (a streamed publish of another task was open at that moment):
+            // this exchange is abandoned by that failure and not judged further - the others are
+            if s.rel_result.as_deref().is_some_and(|r| r.starts_with("err:Encode")) {
+                continue;
+            }
             let released = s.rel_started || s.rel_result.is_some();
             let rels = self.pubrel_seen.iter().filter(|x| **x == id).count();
             // (caller-chosen ids may be re-used by a later exchange once the earlier one is complete: count per id
